@@ -14,7 +14,10 @@ VERIF = os.path.dirname(os.path.dirname(os.path.abspath(__file__)))
 REPO = os.environ.get('VERIF_REPO', '/repo')
 SRC = os.path.join(REPO, 'src', 'tally')
 COQ = os.path.join(VERIF, 'coq')
-WORK = os.path.join(VERIF, '.work')
+WORK_ROOT = os.path.join(VERIF, '.work')
+# every invocation gets a private scratch directory, so that two checks (or two runs of the same check, e.g. against
+# different trees) never share budgets / cases files; removed at exit
+WORK = os.path.join(WORK_ROOT, f'run-{os.getpid()}')
 PY = '/venv/bin/python'
 sys.path.insert(0, os.path.join(VERIF, 'tools'))
 
@@ -41,8 +44,18 @@ def env_impl():
 
 
 def ensure_dirs():
-    for d in (WORK, os.path.join(VERIF, 'evidence'), os.path.join(VERIF, 'replays')):
+    for d in (WORK_ROOT, WORK, os.path.join(VERIF, 'evidence'), os.path.join(VERIF, 'replays')):
         os.makedirs(d, exist_ok=True)
+
+
+def _cleanup_work():
+    import shutil
+    if os.environ.get('VERIF_KEEP_WORK') != '1':
+        shutil.rmtree(WORK, ignore_errors=True)
+
+
+import atexit  # noqa: E402
+atexit.register(_cleanup_work)
 
 
 def regen(relpath, content):
@@ -60,7 +73,7 @@ def regen(relpath, content):
 class CoqLock:
     def __enter__(self):
         ensure_dirs()
-        self.f = open(os.path.join(WORK, 'coq.lock'), 'w')
+        self.f = open(os.path.join(WORK_ROOT, 'coq.lock'), 'w')
         fcntl.flock(self.f, fcntl.LOCK_EX)
         return self
 
@@ -279,7 +292,7 @@ class Run:
         ev['coverage']['known_findings_reported'] = self.known_lines
         # evidence/<id>.json describes runs against /repo itself; a run against another tree (VERIF_REPO, used to
         # test the checks on mutated scratch copies) must not overwrite it
-        ev_dir = os.path.join(VERIF, 'evidence') if os.path.realpath(REPO) == '/repo' else os.path.join(WORK, 'evidence-other-tree')
+        ev_dir = os.path.join(VERIF, 'evidence') if os.path.realpath(REPO) == '/repo' else os.path.join(WORK_ROOT, 'evidence-other-tree')
         os.makedirs(ev_dir, exist_ok=True)
         with open(os.path.join(ev_dir, f'{self.prop}.json'), 'w') as f:
             json.dump(ev, f, indent=1, default=str)
